@@ -32,6 +32,8 @@
 #include <xalanc/XMLSupport/FormatterTreeWalker.hpp>
 #include <xalanc/XSLT/XSLTInputSource.hpp>
 #include <xalanc/XSLT/XSLTResultTarget.hpp>
+#include <xalanc/XPath/Function.hpp>
+#include <xalanc/XPath/XObjectFactory.hpp>
 
 using namespace xalanc;
 
@@ -89,6 +91,12 @@ void applySettings(XalanTransformer& t, const Msg& s)
     if (s.has("set.poolall")) t.setPoolAllTextNodes(s.geti("set.poolall") != 0);
     for (auto p : s.all("param")) applyParam(t, *p);
 }
+
+static void installTwice(XalanTransformer& t);
+
+// objects created by the 'history' command and referred to by name from later steps
+static std::map<std::string, const XalanCompiledStylesheet*> g_compiled;
+static std::map<std::string, const XalanParsedSource*> g_parsed;
 
 namespace
 {
@@ -160,7 +168,13 @@ void runTransform(XalanTransformer& t, const Msg& spec, Msg& resp, const std::st
         resp.add(pfx + "err", e ? e : "<null>");
     };
 
-    if (srcform == "stream")
+    if (spec.has("use.parsed"))
+    {
+        std::map<std::string, const XalanParsedSource*>::iterator i = g_parsed.find(spec.gets("use.parsed"));
+        if (i == g_parsed.end()) { resp.add(pfx + "skipped", "unknown parsed source"); t.setEntityResolver(oldResolver); return; }
+        parsed = i->second;
+    }
+    else if (srcform == "stream")
     {
         srcInput.reset(new XSLTInputSource(&xmlStream));
         srcInput->setSystemId(dom(xmlSys).c_str());
@@ -262,7 +276,15 @@ void runTransform(XalanTransformer& t, const Msg& spec, Msg& resp, const std::st
     std::istringstream xslStream(xsl);
     std::unique_ptr<XSLTInputSource> xslInput;
     const XalanCompiledStylesheet* compiled = 0;
-    if (xslform == "stream")
+    bool compiledOwned = true;
+    if (spec.has("use.compiled"))
+    {
+        std::map<std::string, const XalanCompiledStylesheet*>::iterator i = g_compiled.find(spec.gets("use.compiled"));
+        if (i == g_compiled.end()) { resp.add(pfx + "skipped", "unknown compiled stylesheet"); t.setEntityResolver(oldResolver); return; }
+        compiled = i->second;
+        compiledOwned = false;
+    }
+    else if (xslform == "stream")
     {
         xslInput.reset(new XSLTInputSource(&xslStream));
         xslInput->setSystemId(dom(xslSys).c_str());
@@ -399,7 +421,7 @@ void runTransform(XalanTransformer& t, const Msg& spec, Msg& resp, const std::st
     }
     for (auto& a : resolver.asked) resp.add(pfx + "asked", a);
 
-    if (compiled) t.destroyStylesheet(compiled);
+    if (compiled && compiledOwned) t.destroyStylesheet(compiled);
     if (parsedOwned) t.destroyParsedSource(parsed);
     if (builder) t.destroyDocumentBuilder(builder);
     t.setEntityResolver(oldResolver);
@@ -413,6 +435,7 @@ void cmdTransform(const Msg& req, Msg& resp)
     XalanTransformer t;
     t.setWarningStream(0);
     applySettings(t, req);
+    if (req.geti("install")) installTwice(t);
     runTransform(t, req, resp);
     if (req.geti("followup"))
     {
@@ -426,4 +449,119 @@ void cmdTransform(const Msg& req, Msg& resp)
 }
 }  // namespace
 
-void registerTransform() { registerCmd("transform", cmdTransform); }
+namespace
+{
+// {urn:ext}twice(x) = 2 * number(x)
+class FunctionTwice : public Function
+{
+public:
+    virtual XObjectPtr execute(XPathExecutionContext& ctx, XalanNode*, const XObjectArgVectorType& args, const Locator*) const
+    {
+        if (args.size() != 1) { XalanDOMString m; generalError(ctx, 0, 0); }
+        return ctx.getXObjectFactory().createNumber(2 * args[0]->num(ctx));
+    }
+    virtual FunctionTwice* clone(MemoryManager& mm) const { return XalanCopyConstruct(mm, *this); }
+protected:
+    virtual const XalanDOMString& getError(XalanDOMString& r) const { r.assign("twice() takes one argument"); return r; }
+};
+
+}  // namespace
+
+static void installTwice(XalanTransformer& t) { t.installExternalFunction(dom("urn:ext"), dom("twice"), FunctionTwice()); }
+
+namespace
+{
+// history: a list of operations on ONE XalanTransformer (C06).
+//   def = name NUL text                         named texts
+//   op  = compile US S US textname              -> r = rc
+//         parse US P US textname US native|xerces
+//         transform US key=value US key=value.. keys: xsl=<textname> xml=<textname> use.compiled=S use.parsed=P outform=...
+//         param US name US kind US value ; clearparams ; set US key US value ; install ; uninstall
+//         destroy-ss US S ; destroy-ps US P
+void cmdHistory(const Msg& req, Msg& resp)
+{
+    std::map<std::string, std::string> texts;
+    for (auto p : req.all("def"))
+    {
+        size_t z = p->find('\0');
+        texts[p->substr(0, z)] = p->substr(z + 1);
+    }
+    g_compiled.clear();
+    g_parsed.clear();
+    {
+        XalanTransformer t;
+        t.setWarningStream(0);
+        MemResolver resolver;
+        resolver.load(req);
+        std::vector<std::istringstream*> streams;
+        int step = 0;
+        for (auto p : req.all("op"))
+        {
+            std::vector<std::string> a = split(*p, '\x1f');
+            const std::string pfx = "s" + std::to_string(step++) + ".";
+            if (a.empty() || a[0] == "noop") continue;
+            if (a[0] == "compile")
+            {
+                std::istringstream in(texts[a[2]]);
+                XSLTInputSource src(&in);
+                src.setSystemId(dom("file:///vmem/main.xsl").c_str());
+                t.setEntityResolver(&resolver);
+                const XalanCompiledStylesheet* c = 0;
+                int rc = t.compileStylesheet(src, c);
+                t.setEntityResolver(0);
+                resp.addi(pfx + "rc", rc);
+                if (rc == 0) g_compiled[a[1]] = c;
+            }
+            else if (a[0] == "parse")
+            {
+                std::istringstream in(texts[a[2]]);
+                XSLTInputSource src(&in);
+                src.setSystemId(dom("file:///vmem/main.xml").c_str());
+                const XalanParsedSource* ps = 0;
+                int rc = t.parseSource(src, ps, a.size() > 3 && a[3] == "xerces");
+                resp.addi(pfx + "rc", rc);
+                if (rc == 0) g_parsed[a[1]] = ps;
+            }
+            else if (a[0] == "transform")
+            {
+                Msg spec;
+                for (size_t i = 1; i < a.size(); ++i)
+                {
+                    size_t eq = a[i].find('=');
+                    std::string k = a[i].substr(0, eq), v = a[i].substr(eq + 1);
+                    if (k == "xsl" || k == "xml") spec.add(k, texts[v]);
+                    else spec.add(k, v);
+                }
+                for (auto r : req.all("res")) spec.add("res", *r);
+                runTransform(t, spec, resp, pfx);
+            }
+            else if (a[0] == "param") { std::string ps = a[1] + '\x1f' + a[2] + '\x1f' + (a.size() > 3 ? a[3] : ""); applyParam(t, ps); }
+            else if (a[0] == "clearparams") t.clearStylesheetParams();
+            else if (a[0] == "set")
+            {
+                Msg sm;
+                sm.add("set." + a[1], a[2]);
+                applySettings(t, sm);
+            }
+            else if (a[0] == "install") t.installExternalFunction(dom("urn:ext"), dom("twice"), FunctionTwice());
+            else if (a[0] == "uninstall") t.uninstallExternalFunction(dom("urn:ext"), dom("twice"));
+            else if (a[0] == "destroy-ss")
+            {
+                if (g_compiled.count(a[1])) { resp.addi(pfx + "rc", t.destroyStylesheet(g_compiled[a[1]])); g_compiled.erase(a[1]); }
+            }
+            else if (a[0] == "destroy-ps")
+            {
+                if (g_parsed.count(a[1])) { resp.addi(pfx + "rc", t.destroyParsedSource(g_parsed[a[1]])); g_parsed.erase(a[1]); }
+            }
+        }
+        g_compiled.clear();
+        g_parsed.clear();
+    }
+}
+}  // namespace
+
+void registerTransform()
+{
+    registerCmd("transform", cmdTransform);
+    registerCmd("history", cmdHistory);
+}
